@@ -113,7 +113,7 @@ open YaraModel.ReVm YaraModel.ReEmit in
     Proof: `vm_reports_accepting` + the path construction `acc_sf` by induction on the expression along the match
     (the proof of Thm/C02 `vm_complete_hex` with the larger set of leaves).
     `_partial`: the full statement is for every well-formed `Re` outside the known-finding shapes; open are the excluded
-    shapes above, wide mode, backward code for this fragment (proved for hex code only) and the non-exhaustive result. -/
+    shapes above, wide mode and the non-exhaustive result (backward code: `vm_complete_starfree_backward_partial`). -/
 theorem vm_complete_starfree_partial (r : Re) (hr : starFree r = true) (hsz : (emit false r 0).1.length < 32000)
     (hid : (emit false r 0).2 ≤ 256) (buf : Bytes) (start : Nat) (hst : start ≤ buf.size)
     (fl : VmFlags) (hw : fl.wide = false) (hb : fl.backwards = false) (hsc : fl.scan = false) (hx : fl.exhaustive = true)
@@ -121,6 +121,19 @@ theorem vm_complete_starfree_partial (r : Re) (hr : starFree r = true) (hsz : (e
     (h : exec { code := (emitCode false r).toArray, entry := 0, buf := buf, start := start, fl := fl, syncFuel := fuel } = .done m c)
     (L : Nat) (hL : L ≤ 1024) (hm : Re.Matches (specFlags fl) buf r start (start + L)) : L ∈ c :=
   vm_complete_sf r hr hsz hid buf start hst fl hw hb hsc hx fuel m c h L hL hm
+
+open YaraModel.ReVm YaraModel.ReEmit in
+/-- `vm_complete_starfree_backward_partial`: the mirrored statement for the BACKWARD code (EMIT_BACKWARDS = the forward code of
+    the mirrored expression `rev r`, run with RE_FLAGS_BACKWARDS): every match [start - L, start) with L ≤ 1024 has its
+    length reported by the exhaustive run that returns without error.  `starFree (rev r)`: the first branch of every
+    alternative cannot be passed BACKWARDS without consuming a character (it ends with a character node). -/
+theorem vm_complete_starfree_backward_partial (r : Re) (hr : starFree (rev r) = true) (hsz : (emit true r 0).1.length < 32000)
+    (hid : (emit true r 0).2 ≤ 256) (buf : Bytes) (start : Nat) (hst : start ≤ buf.size)
+    (fl : VmFlags) (hw : fl.wide = false) (hb : fl.backwards = true) (hsc : fl.scan = false) (hx : fl.exhaustive = true)
+    (fuel : Nat) (m : Int) (c : List Nat)
+    (h : exec { code := (emitCode true r).toArray, entry := 0, buf := buf, start := start, fl := fl, syncFuel := fuel } = .done m c)
+    (L : Nat) (hL : L ≤ 1024) (hLs : L ≤ start) (hm : Re.Matches (specFlags fl) buf r (start - L) start) : L ∈ c :=
+  vm_complete_sf_bwd r hr hsz hid buf start hst fl hw hb hsc hx fuel m c h L hL hLs hm
 
 open YaraModel.ReVm YaraModel.ReEmit in
 /-- the hypotheses are satisfiable together, non-trivially: `a(b|c\d|).{0,2}\w` (greedy) on `ac1xyz` — the expression is
